@@ -1,4 +1,5 @@
 import BlobfinderModel.Properties.C04
+import BlobfinderModel.Proofs.Pipeline
 /-!
 # C14 — equivariant to translation and axis swap, invariant to intensity offset
 Exact arithmetic (ℚ); the logarithm is never evaluated: the statements are about its argument.
@@ -85,6 +86,100 @@ centre expression on both axes (checked by the translator, see `Gen.mask_center`
 refinement radius and re-anchoring treat the two axes alike -/
 theorem axes_alike (r y x h w : ℤ) : Gen.refine_r r y x h w = Gen.refine_r r x y w h := by
   unfold Gen.refine_r; omega
+
+/-! ### The composed pipelines (model level) -/
+
+theorem flat_add_const (f : ℤ → ℤ → ℚ) (n m : ℤ) (k : ℚ) :
+    flat (fun y x => f y x + k) n m = (flat f n m).map (· + k) := by
+  unfold flat
+  rw [List.map_flatMap]
+  simp only [List.map_map]
+  rfl
+
+/-- **Translation equivariance of the crop-based method, end to end**: if the frame content and the
+peak are translated by the same integer vector and the window lies inside the frame before and
+after, the integer centre and the refined position move by that vector and height and elevation
+are identical — exactly, for every mask, every logarithm, every crop size. -/
+theorem fastPeak_translate (L : ℚ → ℚ) (mask frame : ℤ → ℤ → ℚ) (fy fx : ℤ) (c : ℕ) (hc : 0 < c)
+    (p t : ℤ × ℤ)
+    (hin : ∀ y x : ℤ, 0 ≤ y → y < 2 * c → 0 ≤ x → x < 2 * c →
+      (0 ≤ p.1 - c + y ∧ p.1 - c + y < fy ∧ 0 ≤ p.2 - c + x ∧ p.2 - c + x < fx) ∧
+      (0 ≤ p.1 + t.1 - c + y ∧ p.1 + t.1 - c + y < fy ∧ 0 ≤ p.2 + t.2 - c + x ∧ p.2 + t.2 - c + x < fx)) :
+    let e := fastPeak L mask frame fy fx c p
+    let e' := fastPeak L mask (fun yy xx => frame (yy - t.1) (xx - t.2)) fy fx c (p.1 + t.1, p.2 + t.2)
+    e'.cy = e.cy + t.1 ∧ e'.cx = e.cx + t.2 ∧ e'.ry = e.ry + t.1 ∧ e'.rx = e.rx + t.2 ∧
+    e'.height = e.height ∧ e'.elev2 = e.elev2 := by
+  intro e e'
+  have hev : fastEval L mask c (fun y x => cropPixel (fun yy xx => frame (yy - t.1) (xx - t.2)) fy fx c
+        (p.1 + t.1) (p.2 + t.2) y x)
+      = fastEval L mask c (fun y x => cropPixel frame fy fx c p.1 p.2 y x) := by
+    apply fastEval_congr L mask c hc
+    intro y x hy0 hy1 hx0 hx1
+    obtain ⟨h1, h2⟩ := hin y x hy0 hy1 hx0 hx1
+    exact crop_translate frame fy fx c p.1 p.2 t.1 t.2 y x h1 h2
+  have he' : e' = reanchor (fastEval L mask c (fun y x => cropPixel frame fy fx c p.1 p.2 y x))
+      (p.1 + t.1) (p.2 + t.2) c := by
+    show fastPeak L mask _ fy fx c (p.1 + t.1, p.2 + t.2) = _
+    rw [fastPeak_eq]; simp only []; rw [hev]
+  have he : e = reanchor (fastEval L mask c (fun y x => cropPixel frame fy fx c p.1 p.2 y x)) p.1 p.2 c :=
+    fastPeak_eq L mask frame fy fx c p
+  rw [he', he]
+  set ev := fastEval L mask c (fun y x => cropPixel frame fy fx c p.1 p.2 y x) with hevdef
+  refine ⟨?_, ?_, ?_, ?_, rfl, rfl⟩
+  · show Gen.shift ev.cy (p.1 + t.1) c = Gen.shift ev.cy p.1 c + t.1
+    unfold Gen.shift; ring
+  · show Gen.shift ev.cx (p.2 + t.2) c = Gen.shift ev.cx p.2 c + t.2
+    unfold Gen.shift; ring
+  · show ev.ry + ((Gen.shift 0 (p.1 + t.1) c : ℤ) : ℚ) = ev.ry + ((Gen.shift 0 p.1 c : ℤ) : ℚ) + (t.1 : ℚ)
+    unfold Gen.shift; push_cast; ring
+  · show ev.rx + ((Gen.shift 0 (p.2 + t.2) c : ℤ) : ℚ) = ev.rx + ((Gen.shift 0 p.2 c : ℤ) : ℚ) + (t.2 : ℚ)
+    unfold Gen.shift; push_cast; ring
+
+/-- **Offset invariance of the full-frame method, end to end, for every peak (also windows that
+overlap the border)**: adding a constant to all pixels changes no output. -/
+theorem fullPeak_offset (L : ℚ → ℚ) (mask frame : ℤ → ℤ → ℚ) (fy fx : ℕ) (hfy : 0 < fy) (hfx : 0 < fx)
+    (c : ℤ) (p : ℤ × ℤ) (k : ℚ) :
+    fullPeak L mask (fun y x => frame y x + k) fy fx c p = fullPeak L mask frame fy fx c p := by
+  have hlog : logFrame L (fun y x => frame y x + k) fy fx = logFrame L frame fy fx := by
+    funext y x
+    unfold logFrame
+    rw [flat_add_const, min_offset _ k (flat_ne_nil frame fy fx hfy hfx)]
+    rw [(logscale_offset (frame y x) (minList (flat frame fy fx)) k).1]
+  unfold fullPeak fullCorr
+  rw [hlog]
+
+/-- **Offset invariance of the crop-based method for a window inside the frame** (a window that
+overlaps the border keeps its zero padding while the data moves, so the statement is about
+windows inside the frame — the oracle uses the same precondition). -/
+theorem fastPeak_offset (L : ℚ → ℚ) (mask frame : ℤ → ℤ → ℚ) (fy fx : ℤ) (c : ℕ) (hc : 0 < c) (p : ℤ × ℤ) (k : ℚ)
+    (hin : ∀ y x : ℤ, 0 ≤ y → y < 2 * c → 0 ≤ x → x < 2 * c →
+      0 ≤ p.1 - c + y ∧ p.1 - c + y < fy ∧ 0 ≤ p.2 - c + x ∧ p.2 - c + x < fx) :
+    fastPeak L mask (fun y x => frame y x + k) fy fx c p = fastPeak L mask frame fy fx c p := by
+  rw [fastPeak_eq, fastPeak_eq]
+  congr 1
+  unfold fastEval
+  have hcast : (2 * (c : ℤ)) = ((2 * c : ℕ) : ℤ) := by push_cast; ring
+  have hpos : 0 < 2 * c := by omega
+  have hcropk : AgreeOn (fun y x => cropPixel (fun y x => frame y x + k) fy fx c p.1 p.2 y x)
+      (fun y x => cropPixel frame fy fx c p.1 p.2 y x + k) (2 * c) (2 * c) := by
+    intro y x hy0 hy1 hx0 hx1
+    simp only []
+    rw [C13.cropPixel_eq_window, C13.cropPixel_eq_window]
+    unfold window
+    have h := hin y x hy0 hy1 hx0 hx1
+    rw [if_pos h, if_pos h]
+  have hlog : AgreeOn (logCrop L (fun y x => cropPixel (fun y x => frame y x + k) fy fx c p.1 p.2 y x) (2 * c) (2 * c))
+      (logCrop L (fun y x => cropPixel frame fy fx c p.1 p.2 y x) (2 * c) (2 * c)) (2 * c) (2 * c) := by
+    intro y x hy0 hy1 hx0 hx1
+    rw [logCrop_congr L _ _ (2 * c) (2 * c) hcropk y x hy0 hy1 hx0 hx1]
+    unfold logCrop
+    rw [flat_add_const]
+    rw [hcast, min_offset _ k (flat_ne_nil _ (2 * c) (2 * c) hpos hpos)]
+    rw [(logscale_offset _ _ k).2]
+  rw [hcast] at hlog ⊢
+  apply evaluate_congr _ _ (2 * c) (2 * c) hpos hpos
+  intro y x _ _ _ _
+  exact corrMap_congr _ mask _ _ _ _ (by exact_mod_cast hpos) (by exact_mod_cast hpos) hlog y x
 
 /-- non-vacuity of `crop_translate`: 6×6 frame, crop size 1 -/
 example : cropPixel (α := ℤ) (fun yy xx => (fun a b => 10 * a + b) (yy - 1) (xx - 2)) 6 6 1 (2 + 1) (1 + 2) 0 1
